@@ -204,8 +204,23 @@ def restore_case(repo, orig, case, workdir, idx):
         if repo['backend'] == 'local':
             shutil.rmtree(root, ignore_errors=True)
         return res
-    cache = os.path.join(workdir, f'cache-{idx}') if mode == 'twice' else None
+    cache = os.path.join(workdir, f'cache-{idx}') if mode in ('twice', 'badcache') else None
+    if mode == 'badcache':
+        # the cache directory already holds a copy of every snapshot object that is NOT the object: empty (interrupted
+        # write), a proper prefix, or another snapshot's bytes - in rotation
+        snaps = sorted(n for n in set(orig) | set(damaged) if n.startswith('snapshots/'))
+        for j, n in enumerate(snaps):
+            good = orig.get(n) or damaged.get(n) or b''
+            # (foreign = the bytes of a snapshot with ANOTHER name: a copy of the object this name denotes would be a valid entry)
+            others = [orig[m] for m in snaps if m in orig and m.rpartition('-')[2] != n.rpartition('-')[2]]
+            bad = [b'', good[:len(good) // 2], others[(idx + j) % len(others)] if others else good[:-1]][(idx + j) % 3]
+            f = os.path.join(cache, n)
+            os.makedirs(os.path.dirname(f), exist_ok=True)
+            with open(f, 'wb') as fh:
+                fh.write(bad)
     res = run_restore(repo, be, case, workdir, idx, cache)
+    if mode == 'badcache':
+        shutil.rmtree(cache, ignore_errors=True)
     if mode == 'twice':
         # the very same command once more: a fresh Repository object, the cache directory the first run left behind
         res['second'] = run_restore(repo, be, case, workdir, idx, cache)
@@ -490,6 +505,9 @@ def gen_cases(rng, repo, n_sampled, n_pairs):
         #   'again': restore, THEN the damage, then the same restore again on ONE long-lived Repository object
         if on_snapshot or i % 3 == 0:
             extra.append(dict(c, mode='again'))
+        #   'badcache': the cache directory holds an empty / truncated / foreign copy of every snapshot object
+        if on_snapshot or i % 6 == 0:
+            extra.append(dict(c, mode='badcache'))
     for t in targets:       # removal after the listing, by name and unfiltered
         extra.append({'specs': [{'k': 'delete', 'o': t}], 'target_loc': t, 'target': by_loc[t]['name'], 'mode': 'late'})
     extra.append({'specs': [{'k': 'delete', 'o': newest}], 'target_loc': newest, 'target': None, 'oracle_only': True, 'mode': 'late'})
@@ -597,7 +615,8 @@ def check_repo(ctx, rep: Report, repo, cases, with_model=True):
             rep.count('variant:' + variant)
         runs = [('', r)] + ([(' - SECOND run of the same command over the cache directory the first run left behind', r['second'])] if 'second' in r else [])
         when = ' applied between the listing and the downloads' if variant == 'late' else \
-            (' applied after a first restore by the same long-lived Repository object' if variant == 'again' else '')
+            (' applied after a first restore by the same long-lived Repository object' if variant == 'again' else
+             ' with a cache directory that holds an empty / truncated / foreign copy of every snapshot object' if variant == 'badcache' else '')
         if variant == 'again' and not r.get('first_ok'):
             rep.disagreements.append({'what': f'[{kind}] {mode}: the restore from the honest repository failed ({r["detail"][:120]})', 'replay': replay_obj(repo, case)})
             continue
